@@ -158,7 +158,30 @@ def _cma_seed_ok(ctx, f, call: ast.Call):
         return False, "without options (no seed, own random stream)"
     if not isinstance(opts, ast.Name):
         return (False, "with inline options lacking seed/randn") if not (isinstance(opts, ast.Dict) and {"seed", "randn"} <= {k.value for k in opts.keys if isinstance(k, ast.Constant)}) else (True, "")
-    name = opts.id
+    return _opts_seed_ok(ctx, f, opts.id)
+
+
+def _opts_seed_ok(ctx, f, name: str, _depth: int = 0):
+    """(True | False | None, why) for the options dictionary held in local `name` of f; None = cannot follow."""
+    # the dictionary may be built by a helper (`opts = self._cma_options(...)`): follow it into the helper's returned local
+    call_defs = [n.value for n in body_walk(f.node) if isinstance(n, ast.Assign) and len(n.targets) == 1 and norm(n.targets[0]) == name and isinstance(n.value, ast.Call)]
+    if call_defs:
+        verdicts = []
+        for c in call_defs:
+            cs = next((c_ for c_ in ctx.res.callsites(f) if c_.node is c), None)
+            tg = cs.targets if cs is not None else []
+            if len(tg) != 1 or _depth > 2:
+                return None, f"whose options are built by `{norm(c)[:60]}`, which is not followed"
+            h = tg[0]
+            rets = [r for r in body_walk(h.node) if isinstance(r, ast.Return) and r.value is not None]
+            if len(rets) != 1 or not isinstance(rets[0].value, ast.Name):
+                return None, f"whose options are built by `{norm(c)[:60]}`, which does not return one local dictionary"
+            verdicts.append(_opts_seed_ok(ctx, h, rets[0].value.id, _depth + 1))
+        bad = [v for v in verdicts if v[0] is not True]
+        if bad:
+            return bad[0]
+        if len(call_defs) == len([n for n in body_walk(f.node) if isinstance(n, ast.Assign) and len(n.targets) == 1 and norm(n.targets[0]) == name]):
+            return True, ""
     stores = {}
     guards = {}
     from ..core import parents_map
@@ -206,7 +229,7 @@ def r14_2(ctx: Ctx):
             continue
         n += 1
         ok, why = _ctor_seed_ok(ctx, f, cs.node)
-        obs.append(ctx.ob("R14.2", f, cs.node, status=OK if ok else VIOLATION, detail=f"{e[1].split('.')[-1]} seeded from random_seed" if ok else f"{e[1].split('.')[-1]} is constructed {why}"))
+        obs.append(ctx.ob("R14.2", f, cs.node, status=OK if ok else INCONCLUSIVE if ok is None else VIOLATION, detail=f"{e[1].split('.')[-1]} seeded from random_seed" if ok else f"{e[1].split('.')[-1]} is constructed {why}"))
     if n < 3:
         raise AnalysisError(f"only {n} generator constructors found (3 cma call sites, LHS, Sobol on the pinned tree)")
     return obs
@@ -563,10 +586,45 @@ def r14_8(ctx: Ctx):
     from .c02 import shared_module_state
 
     obs.extend(shared_module_state(ctx, "R14.8"))
-    # (c) counters
-    for o in c03.r03_1(ctx):
-        o.rule = "R14.8"
-        obs.append(o)
+    # (c) whether an evaluation is counted must not depend on state of the WRAPPED problem object: that object belongs to
+    # the configuration and survives from run to run (a cache filled by the first run answers the second), so such a count
+    # differs between two runs of the same seed. (A count that is merely wrong in a fixed way is C03 / C16's concern.)
+    base = ctx.prog.cls("ProblemWrapper")
+    n_w = 0
+    for ci in ctx.prog.classes.values():
+        if not (ci is base or ctx.prog.is_subclass(ci, base)):
+            continue
+        m = ci.methods.get("evaluate")
+        if m is None:
+            continue
+        n_w += 1
+        sn = m.self_name()
+        inner_props = set()
+        for c2 in ctx.prog.mro(ci):
+            for pm in c2.methods.values():
+                if "property" in " ".join(getattr(c2, "decorators_of", lambda _n: [])(pm.name)) or any(norm(d) == "property" for d in getattr(pm.node, "decorator_list", [])):
+                    if any((isinstance(x, ast.Attribute) and x.attr == "_inner") for x in ast.walk(pm.node)) and pm.name not in ("maximize", "bounds"):
+                        inner_props.add(pm.name)
+        hit = None
+        for x in body_walk(m.node):
+            if not isinstance(x, ast.If):
+                continue
+            def incs(stmts):
+                return [y for b in stmts for y in ast.walk(b) if isinstance(y, ast.AugAssign) and is_self_attr(y.target, None, sn) and ("eval" in y.target.attr or "count" in y.target.attr)]
+            if bool(incs(x.body)) == bool(incs(x.orelse)):
+                continue
+            for a in ast.walk(x.test):
+                if isinstance(a, ast.Attribute) and isinstance(a.ctx, ast.Load):
+                    if (is_self_attr(a, None, sn) and a.attr in inner_props) or (isinstance(a.value, ast.Attribute) and a.value.attr == "_inner" and a.attr not in ("maximize", "bounds")):
+                        hit = hit or (x, a)
+                if isinstance(a, ast.Call) and norm(a.func) == "getattr" and a.args and isinstance(a.args[0], ast.Attribute) and a.args[0].attr == "_inner":
+                    hit = hit or (x, a)
+        if hit is not None:
+            obs.append(ctx.ob("R14.8", m, hit[0], status=VIOLATION, detail=f"{m.short}: whether the evaluation is counted depends on `{norm(hit[1])}`, i.e. on state of the wrapped problem object; that object is part of the configuration and outlives the run (e.g. a cache filled by an earlier run), so evaluation counts - and every budget condition reading them - differ between two runs with the same seed", construct=f"{m.short}:count-depends-on-inner"))
+        else:
+            obs.append(ctx.ob("R14.8", m, m.node, detail=f"{m.short}: no counter increment is conditional on the wrapped problem's state", construct=f"{m.short}:count-depends-on-inner"))
+    if n_w < 3:
+        raise AnalysisError(f"only {n_w} wrapper evaluate methods scanned")
     return obs
 
 
